@@ -36,7 +36,8 @@ META = {
                    "function, and dependence of every lowering write on the seconds this task had booked. These are "
                    "necessary conditions of 'never more than the slot length, portions do not overlap'; the sums "
                    "themselves are runtime quantities and are not decided."
-                   " Also: read-modify-write shape of every ledger-lowering write, the order table of the partial-slot re-offer, placement of the final-slot portion by the slot ledger in both scheduling directions, unconditional own-record lookup and the all-paths clamp of the seconds used to the seconds booked.",
+                   " Also: read-modify-write shape of every ledger-lowering write, the order table of the partial-slot re-offer, placement of the final-slot portion by the slot ledger in both scheduling directions, unconditional own-record lookup and the all-paths clamp of the seconds used to the seconds booked."
+                   " Round 3: the ledger survives the per-run preparation of a resource (shared with C12), the amount book() adds to a slot derives from the ledger on every path, and no answer under Project.schedule comes from a lossy memo, a stale attribute slot or a process-level container.",
     "assumptions": ["a predicate call tested in a branch (available) is stable until the guarded write in the same function"],
 }
 
